@@ -506,6 +506,95 @@ func c10Tasks(tier string) []Task {
 			}})
 		}
 	}
+	return append(tasks, c10ConcurrentTasks(tier)...)
+}
+
+// ---- snapshots taken while a writer runs (controlled scheduler) -----------------------------------------
+// ListKeys / Fold / an iterator scan race one Put of a new key, one overwrite or one Delete: whatever the
+// interleaving, the enumeration must be sorted, without nil keys and without duplicates, and must contain every
+// key that the concurrent writer does not touch ("complete, stable snapshot").
+
+func c10ConcurrentTasks(tier string) []Task {
+	pb := 2
+	if tier == "thorough" {
+		pb = 4
+	}
+	init := []Op{{K: "put", Key: "a", VC: "S"}, {K: "put", Key: "b", VC: "S"}}
+	var tasks []Task
+	for _, ix := range []int8{1, 2, 3} {
+		for _, sh := range []int{1, 16} {
+			for _, reader := range []string{"listkeys", "fold", "iter"} {
+				for _, writer := range []Call{{K: "put", Key: "c"}, {K: "put", Key: "a"}, {K: "del", Key: "a"}, {K: "del", Key: "b"}} {
+					cfg := defaultCfg
+					cfg.Index, cfg.Shards, cfg.FileSize = ix, sh, 1<<20
+					sc := Scenario{Cfg: cfg, Init: init, Threads: [][]Call{{{K: reader}}, {writer}}}
+					tasks = append(tasks, Task{Level: fmt.Sprintf("concurrent-snapshot-pb%d", pb), Name: "concurrent " + sc.String(), Fn: func(res *TaskResult) {
+						outcomes := map[string]bool{}
+						n, complete := exploreSchedules(func(prefix []int8) *ExecResult {
+							announce(func() string { return fmt.Sprintf("%s schedule %v", sc, prefix) })
+							return runScenario(sc, prefix, false)
+						}, pb, 100000, func(ex *ExecResult, prefix []int8) bool {
+							res.Execs++
+							if ex.OpenErr != "" || ex.Sched == nil {
+								return true
+							}
+							res.Transitions += ex.Sched.Points
+							res.Evals++
+							bad := ""
+							for i, p := range ex.Sched.Panics {
+								if p != "" {
+									bad = fmt.Sprintf("thread %d panicked: %s", i, firstLine(p))
+								}
+							}
+							for _, c := range ex.Calls {
+								if c.Call.K != reader || bad != "" {
+									continue
+								}
+								if c.NilKey {
+									bad = "the enumeration contains a nil key"
+									break
+								}
+								var ks []string
+								for _, kvp := range strings.Split(c.Extra, ",") {
+									if kvp != "" {
+										ks = append(ks, strings.SplitN(kvp, "=", 2)[0])
+									}
+								}
+								outcomes[strings.Join(ks, ",")] = true
+								for i := 1; i < len(ks); i++ {
+									if ks[i-1] >= ks[i] {
+										bad = fmt.Sprintf("the enumeration %q is not strictly ascending", ks)
+									}
+								}
+								for _, k := range []string{"a", "b"} {
+									if k != writer.Key && !strings.Contains(","+strings.Join(ks, ",")+",", ","+k+",") {
+										bad = fmt.Sprintf("key %q, which the concurrent writer does not touch, is missing from %q", k, ks)
+									}
+								}
+							}
+							if bad != "" {
+								res.Violations = append(res.Violations, Violation{Prop: "C10", Clause: "concurrent-snapshot", Sig: "concurrent-snapshot:" + reader,
+									Detail: fmt.Sprintf("scenario %s\nschedule: %s\n%s", sc, describeSchedule(ex), bad),
+									Replay: mustJSON(schedReplay{Engine: "sched", Prop: "C10", Scenario: sc, Schedule: append([]int8{}, ex.Sched.Choices...), Text: sc.String()})})
+								return false
+							}
+							return true
+						})
+						if !complete {
+							res.Partial = true
+						}
+						for o := range outcomes {
+							res.States = append(res.States, hash64(sc.String(), o))
+						}
+						if len(outcomes) > 1 {
+							res.Nontrivial++
+						}
+						res.count("max:schedules_per_scenario", int64(n))
+					}})
+				}
+			}
+		}
+	}
 	return tasks
 }
 
@@ -522,7 +611,7 @@ func init() {
 	register(&Check{
 		Prop:   "C10",
 		Engine: "seq",
-		Rule:   "every subset of the 6-key universe (prefix chains and neighbours) x direction x index type x shard count x [prefix] x every call sequence (first call Rewind or Seek(t); then Next | Rewind | Seek(t) | one interleaved write) within the deviation bound; sequences containing a Seek to an already passed target are pruned (not specified). (Valid, Key, Value) compared with a sorted-slice cursor model after every call. non-trivial = at least 2 keys and at least 2 calls after the first",
+		Rule:   "every subset of the 6-key universe (prefix chains and neighbours) x direction x index type x shard count x [prefix] x every call sequence (first call Rewind or Seek(t); then Next | Rewind | Seek(t) | one interleaved write) within the deviation bound; sequences containing a Seek to an already passed target are pruned (not specified). (Valid, Key, Value) compared with a sorted-slice cursor model after every call. plus, under the controlled scheduler, ListKeys / Fold / an iterator scan racing one Put / overwrite / Delete (all schedules up to the preemption bound): sorted, no nil key, no duplicate, every untouched key present. non-trivial = at least 2 keys and at least 2 calls after the first",
 		Assumptions: []string{
 			"a fresh iterator is first positioned by Rewind or Seek (use before that is not specified by the statement)",
 			"Value at index level is the position recorded at creation; at DB level the stored bytes at creation",
